@@ -209,6 +209,153 @@ def summarise(ctx, qn, policy=default_policy, oracle=None, args=None, self_term=
     return ps
 
 
+def slot_memos(ctx, fn, ps):
+    """One-slot memoisation inside fn: the object remembers the last question and its answer in fields of its own (two fields, or one field holding a tuple),
+        hit:  `self.T == g(params)` [and ...] -> return self.R (or a copy)        miss:  self.T = g(params) ; self.R = v ; return v (or a copy)
+    -> [dict(tag=..., result=..., key=g, verdict=('sound',) | ('unsound', why) | ('other', why), hits=[paths])].  Sound means: the remembered question is a SNAPSHOT
+    of everything the answer depends on (an immutable or private copy - a live view or the caller's own mutable object compares equal to itself for ever), the
+    answer reads no other state that changes after construction, and nobody else writes the slot."""
+    self_ = V('self')
+    params = [p_ for p_ in fn.params if p_ not in ('self', 'cls')]
+
+    def slot_locs(t):
+        out_ = []
+        for s_ in T.subterms(t):
+            if s_[0] == 'sub' and s_[1][0] == 'attr' and s_[1][1] == self_ and s_[2][0] == 'num':
+                out_.append(s_)
+        inner = {s_[1] for s_ in out_}
+        for s_ in T.subterms(t):
+            if s_[0] == 'attr' and s_[1] == self_ and s_ not in inner:
+                out_.append(s_)
+        return out_
+
+    def uncopy(t):
+        while t[0] == 'call' and t[1] in (('ext', 'COPY'), ('ext', 'DICT'), ('ext', 'LIST'), ('ext', 'TUPLE')) and len(t[2]) == 1 and not t[3]:
+            t = t[2][0]
+        return t
+    # what each path stores into slots
+    stores = []
+    for p in ps:
+        st = {}
+        for w in heap_writes(p):
+            if w.how == 'assign' and w.loc[0] == 'attr' and w.loc[1] == self_ and w.value is not None:
+                st[w.loc] = w.value
+                if w.value[0] == 'tuple':
+                    for i, t_ in enumerate(w.value[1]):
+                        st[('sub', w.loc, T.num(i))] = t_
+        if st:
+            stores.append((p, st))
+    stored_locs = {l_ for _, st in stores for l_ in st}
+    groups = {}
+    for p in ps:
+        if p.outcome != 'return' or p.value is None or heap_writes(p):
+            continue
+        res = [l_ for l_ in slot_locs(p.value) if l_ in stored_locs]
+        if not res or uncopy(p.value) not in res:
+            continue
+        pins = []
+        for c, val, _ in p.conds:
+            if c[0] == 'cmp' and c[1] in ('==', '!=') and val is (c[1] == '=='):
+                for a_, b_ in ((c[2], c[3]), (c[3], c[2])):
+                    if a_ in stored_locs and a_ not in res:
+                        pins.append((a_, b_))
+        if pins:
+            groups.setdefault((tuple(res), tuple(l_ for l_, _ in pins)), []).append((p, pins))
+    out = []
+    for (res, tags), hs in groups.items():
+        pins = hs[0][1]
+        key = pins[0][1] if len(pins) == 1 else ('tuple', tuple(g_ for _, g_ in pins))
+        rel = [(p, st) for p, st in stores if any(l_ in st for l_ in res + tags)]
+        verdict = None
+        rname = fmt(res[0])
+        if not rel or any(not all(l_ in st for l_ in res + tags) for _, st in rel):
+            verdict = ('other', 'the remembered question and answer are not always stored together')
+        elif any(not T.teq(uncopy(st[l_]), uncopy(g_)) for _, st in rel for l_, g_ in pins):
+            verdict = ('other', 'the question remembered is not the question compared')
+        elif any(p.outcome == 'return' and p.value is not None and not T.teq(uncopy(p.value), uncopy(st[res[0]])) for p, st in rel):
+            verdict = ('other', 'the answer remembered is not the answer handed out by the computing path')
+        else:
+            kvars = {s_[1] for _, g_ in pins for s_ in T.subterms(g_) if s_[0] == 'var'}
+            kfields = {s_[2] for _, g_ in pins for s_ in T.subterms(g_) if s_[0] == 'attr' and s_[1] == self_}
+            roots = {(l_[1] if l_[0] == 'sub' else l_)[2] for l_ in res + tags}
+            deps, fields = set(), set()
+            for p, st in rel:
+                for t in [st[res[0]]] + [c for c, _, _ in p.conds]:
+                    deps |= {s_[1] for s_ in T.subterms(t) if s_[0] == 'var' and s_[1] in params}
+                    fields |= {s_[2] for s_ in T.subterms(t) if s_[0] == 'attr' and s_[1] == self_ and s_[2] not in roots}
+            missing = sorted(deps - kvars)
+            mutable = sorted(f_ for f_ in fields - kfields if fn.cls is not None and ctx.M.field_written_outside_init(fn.cls, f_))
+            foreign = sorted({w.fn.qn for f_ in roots for w in writers_of_attr(ctx.M, f_, owner=fn.cls.name if fn.cls else None)
+                              if w.fn.qn != fn.qn and w.fn.name != '__init__' and not ctx.M.ctor_only(w.fn)})
+            snaps = [(_snapshot(st[l_], fn), st[l_]) for _, st in rel for l_, _ in pins]
+            if missing:
+                verdict = ('unsound', 'the remembered question %s leaves out %s, which the answer depends on' % (fmt(key)[:60], ', '.join(missing)))
+            elif any(s_ is False for s_, _ in snaps):
+                bad_ = next(t_ for s_, t_ in snaps if s_ is False)
+                verdict = ('unsound', 'the remembered question %s is not a copy: it is the caller\'s own object (or a live view of it), which always equals itself - '
+                                      'once the caller changes that object in place the old answer is handed out for the new content' % fmt(bad_)[:60])
+            elif mutable:
+                verdict = ('other', 'the answer reads %s, which is rewritten after construction' % mutable)
+            elif foreign:
+                verdict = ('other', '%s also write(s) the slot' % ', '.join(foreign[:2]))
+            elif any(s_ is None for s_, _ in snaps):
+                bad_ = next(t_ for s_, t_ in snaps if s_ is None)
+                verdict = ('other', 'whether the remembered question %s can change after it was stored is not decided' % fmt(bad_)[:60])
+            else:
+                verdict = ('sound',)
+        out.append({'tag': ', '.join(fmt(l_) for l_ in tags), 'result': rname.replace('self.', '', 1), 'result_locs': list(res), 'key': key, 'verdict': verdict,
+                    'hits': [p for p, _ in hs]})
+    return out
+
+
+def uncopy(t):
+    """the container a term denotes up to copying: dict(x), list(x), x.copy(), copy.copy(x) hold what x holds"""
+    while t is not None and t[0] == 'call' and t[1] in (('ext', 'COPY'), ('ext', 'DICT'), ('ext', 'LIST')) and len(t[2]) == 1 and not t[3]:
+        t = t[2][0]
+    return t
+
+
+def _snapshot(t, fn):
+    """True: the value is immutable once made (tuple(...)/frozenset(...)/str/number, a tuple of such); False: it aliases something the caller can change in place
+    (a dict view, a parameter the function itself treats as a dict/list); None: unknown"""
+    if t[0] in ('num', 'str', 'const'):
+        return True
+    if t[0] == 'call' and t[1][0] == 'ext' and t[1][1] in ('TUPLE', 'FROZENSET', 'builtins.frozenset', 'builtins.str', 'builtins.hash', 'builtins.repr', 'LEN', 'SUM', 'builtins.id'):
+        inner = t[2][0] if t[2] else None
+        if t[1][1] in ('TUPLE', 'FROZENSET', 'builtins.frozenset') and inner is not None:
+            # a tuple of the items is a snapshot of keys and values as long as those are themselves immutable (numbers, strings): taken as such
+            return True
+        return True
+    if t[0] == 'tuple':
+        rs = [_snapshot(x, fn) for x in t[1]]
+        return False if any(r is False for r in rs) else (True if all(r is True for r in rs) else None)
+    if t[0] == 'call' and t[1][0] == 'meth' and t[1][1] in ('items', 'keys', 'values') and len(t[2]) == 1:
+        return False
+    if t[0] == 'var':
+        # the parameter itself: a container when the function iterates it, subscripts it or calls container methods on it
+        for n in ast.walk(fn.node):
+            if isinstance(n, ast.Attribute) and isinstance(n.value, ast.Name) and n.value.id == t[1] and n.attr in ('items', 'keys', 'values', 'append', 'get', 'update', 'pop', 'setdefault'):
+                return False
+            if isinstance(n, ast.Subscript) and isinstance(n.value, ast.Name) and n.value.id == t[1]:
+                return False
+            if isinstance(n, (ast.For, ast.comprehension)) and isinstance(n.iter, ast.Name) and n.iter.id == t[1]:
+                return False
+            if isinstance(n, ast.Call) and isinstance(n.func, ast.Name) and n.func.id in ('dict', 'list', 'set', 'sorted', 'len') and len(n.args) == 1 \
+                    and isinstance(n.args[0], ast.Name) and n.args[0].id == t[1]:
+                return False        # copied or measured as a container
+        import re
+        doc = ast.get_docstring(fn.node) or ''
+        m_ = re.search(r'^\s*%s\s*[:;]\s*`([^`]+)`' % re.escape(t[1]), doc, re.M)
+        if m_ and re.match(r'\s*(dict|list|set|collections\.|pd\.(DataFrame|Series)|np\.ndarray|deque)', m_.group(1)):
+            return False            # documented as a mutable container
+        return None
+    if t[0] == 'call' and t[1] in (('ext', 'COPY'), ('ext', 'DICT'), ('ext', 'LIST'), ('ext', 'SORTED')):
+        return True     # a copy made here and kept privately
+    if t[0] == 'attr' and t[1] == V('self'):
+        return True     # a setting of the object itself, compared afresh with its current value at every call
+    return None
+
+
 def _generation_tag(ctx, fn, ps, table, missing):
     """A memo whose key leaves out parameter P is still sound when the object remembers, in a tag field F, the P its entries were computed for, and empties the
     table whenever it is asked about another P:  `if self.F != P: self.F = P; self.M.clear()`  before the table is consulted.
